@@ -15,7 +15,7 @@
 (*   RecreateIdentical within one commit window a key got back a value it  *)
 (*                     had earlier in that window                          *)
 (***************************************************************************)
-EXTENDS WMPT, IOUtils
+EXTENDS WMPT, WCanon, IOUtils
 
 Trace == ndJsonDeserialize(IOEnv.TRACE)
 
@@ -63,6 +63,16 @@ OwnersOK(m, total, owners) ==
   /\ \A o \in ToSet(owners) :
         /\ o[6] = "ok" /\ o[1] \in 1..total
         /\ o[2] = Owner(m, o[1]) /\ o[3] = m[o[2]].v /\ o[4] = m[o[2]].w /\ o[5] = TRUE
+
+\* key nibbles of the running trace (reset event), kept in the otherwise unused generator variable
+Nibs == hist
+\* a stored trie as rendered by the executor -> term
+RECURSIVE ConvW(_)
+ConvW(x) ==
+  CASE x[1] = "V" -> VN(x[2], x[3])
+    [] x[1] = "S" -> SN(x[2], ConvW(x[3]))
+    [] x[1] = "B" -> BN(x[2], [c \in {p[1] : p \in ToSet(x[3])} |-> ConvW((CHOOSE p \in ToSet(x[3]) : p[1] = c)[2])])
+    [] OTHER -> [t |-> x[1]]
 
 SeenOf(k) == IF k \in DOMAIN seen THEN seen[k] ELSE {}
 CurVal(k) == IF k \in DOMAIN kv THEN kv[k].v ELSE ""
@@ -113,7 +123,10 @@ Step(e) ==
     [] e.op = "reopen" ->
          LET good == e.ok /\ e.rootOK /\ OwnersOK(dur, e.total, e.owners) IN
          [Base EXCEPT !.f = Flag(good, IF e.after = "rollback" THEN "rollbackreopen" ELSE "reopen")
-                            \cup Flag(good \/ ~rb, "rollbackreopen")]
+                            \cup Flag(good \/ ~rb, "rollbackreopen")
+                            \* the stored trie has the canonical shape of the durable content (branch weights included)
+                            \cup Flag(~("shape" \in DOMAIN e) \/ ConvW(e.shape) = WCanonOf({<<Nibs[k + 1], dur[k].v, dur[k].w>> : k \in DOMAIN dur}),
+                                       "wshape")]
     [] e.op = "gcbegin" -> [Base EXCEPT !.mode = "gc"]
     [] e.op = "gcend" -> [Base EXCEPT !.mode = "idle", !.f = Flag(e.res = "ok", "res")]
     [] e.op = "reload" -> [Base EXCEPT !.kv = dur, !.dirty = FALSE, !.f = Flag(e.weight = Total(dur), "weight")]
@@ -156,7 +169,8 @@ TraceNext ==
      IN  /\ kv' = r.kv /\ dur' = r.dur /\ ck' = r.ck /\ store' = r.store /\ needs' = r.needs /\ durRoot' = r.durRoot
          /\ ckRoot' = r.ckRoot /\ written' = r.written /\ batch' = r.batch /\ dirty' = r.dirty /\ seen' = r.seen
          /\ roots' = r.roots /\ dev' = r.dev /\ rb' = r.rb /\ mode' = r.mode /\ emptyId' = r.emptyId
-         /\ UNCHANGED <<st, hist, last>>
+         /\ hist' = IF e.op = "reset" /\ "nibs" \in DOMAIN e THEN e.nibs ELSE hist
+         /\ UNCHANGED <<st, last>>
          /\ l' = l + 1
          /\ ntr' = IF e.op = "reset" THEN ntr + 1 ELSE ntr
          /\ nbad' = IF f = {} THEN nbad ELSE nbad + 1
